@@ -82,7 +82,8 @@ META = dict(
     bounds=dict(
         quick="objects: histories <= 3 from 2 roots over 27 ops, protocols 2-5, bisimulation with protocol 4 (10 probes at depth <= 2, 3 at depth 3); 43 statements x "
         "protocols; 17 MetaData shapes",
-        thorough="objects: histories <= 4, bisimulation with all protocols; MetaData: all pairs of feature deviations (~110 shapes)",
+        thorough="objects: histories <= 4, bisimulation with all protocols at depth <= 2, protocol 4 below (10 probes at depth <= 3, 3 at "
+        "depth 4); MetaData: all pairs of feature deviations (~110 shapes)",
     ),
 )
 SHARD_TIMEOUT = dict(quick=900, thorough=3000)
@@ -243,8 +244,9 @@ def probe_state(PW, rec, root, hist, u, tier):
         if len(keys) != len(set(keys)):
             rec.count("bisimulation_skipped_two_instances_of_one_identity_in_graph")
             continue
-        probes = PW.PROBES if (tier != "quick" or len(hist) <= 2) else QUICK_DEEP_PROBES
-        for proto in ((4,) if tier == "quick" else PROTOS):
+        deepest = 3 if tier == "quick" else 4
+        probes = PW.PROBES if len(hist) < deepest else QUICK_DEEP_PROBES
+        for proto in (PROTOS if (tier != "quick" and len(hist) <= 2) else (4,)):
             for kind, text, detail in bisim_problems(PW, root, hist, name, proto, probes):
                 rec.violation(
                     "object %s (%s): %s" % (type(o).__name__, lc, text.split(":")[0] if kind.startswith("bisim-post") else _generic(text)),
